@@ -40,7 +40,9 @@ theorem finishOf_pe_none_phase (c : Cfg) (s s' : S) (h : processError c s = (s',
         · cases hg
         · split at hg
           · cases hg
-          · cases hg; rfl
+          · cases hg
+            unfold abandonRetry
+            split <;> rfl
       · split at hg
         · cases hg
         · split at hg
